@@ -93,7 +93,9 @@ PTYPES = ["Fraction", "np.float64", "np.float32", "np.int64", "np.int32", "float
 def ptypes_for(u, route):
     """numeric types in which every constant power of the route can be written"""
     es = [2 * e if route == "sqrt" else e for _, e in u]
-    return [t for t in PTYPES if all(t in X.num_types_for(abs(e)) for e in es if e != 1)]
+    ints = all(e.denominator == 1 for e in es)
+    # binary32 thirds are fine here: the printer rounds every exponent to a denominator <= 10
+    return [t for t in PTYPES if ints or t not in ("np.int64", "np.int32")]
 
 
 def build(q, u, route, mk):
